@@ -13,9 +13,9 @@ def resultFor (s : Nat) (res : List (Nat × List Delta × Option Failure)) :
   (res.find? (fun r => r.1 == s)).map (·.2)
 
 /-- What the pipeline computes for one security, as a function of that security's rows alone. -/
-def secResult (dflt : Aff) (order : List Aff → List Aff) (init : Option Status) (rowsS : List PRow) :
+def secResult (dflt : Aff) (init : Option Status) (rowsS : List PRow) :
     List Delta × Option Failure :=
-  secResultSorted dflt order init (sortRows rowsS)
+  secResultSorted dflt init (sortRows rowsS)
 
 theorem find_map_sec {α : Type} (f : Nat → α) (s : Nat) :
     ∀ (l : List Nat), s ∈ l → ((l.map (fun x => (x, f x))).find? (fun r => r.1 == s)).map (·.2) = some (f s) := by
@@ -49,41 +49,41 @@ theorem mem_secsOf {s : Nat} {l : List PRow} : s ∈ secsOf l ↔ ∃ r ∈ l, r
     pipeline reports for a security that has rows is `secResult` of that security's rows alone:
     the rows of every other security — including ones that fail bookkeeping or split validation —
     do not enter it. -/
-theorem C08_table_local (dflt : Aff) (order : Nat → List Aff → List Aff) (inits : Nat → Option Status)
+theorem C08_table_local (dflt : Aff) (inits : Nat → Option Status)
     (rows : List PRow) (s : Nat) (hs : ∃ r ∈ rows, r.sec = s) :
-    resultFor s (runPipeline dflt order inits rows) =
-      some (secResult dflt (order s) (inits s) (rowsOf s rows)) := by
+    resultFor s (runPipeline dflt inits rows) =
+      some (secResult dflt (inits s) (rowsOf s rows)) := by
   unfold resultFor runPipeline
   simp only
   have hmem : s ∈ secsOf (sortRows rows) := by
     rw [mem_secsOf]
     obtain ⟨r, hr, hrs⟩ := hs
     exact ⟨r, mem_sortRows.mpr hr, hrs⟩
-  have := find_map_sec (fun s => secResultSorted dflt (order s) (inits s) (rowsOf s (sortRows rows))) s _ hmem
+  have := find_map_sec (fun s => secResultSorted dflt (inits s) (rowsOf s (sortRows rows))) s _ hmem
   rw [this, rowsOf_sortRows]
   rfl
 
 /-- **C08 (adding or removing other securities changes nothing).**  Two inputs that contain the
     same rows for security `s` (whatever else they contain) give `s` the same result. -/
-theorem C08_other_rows_irrelevant (dflt : Aff) (order : Nat → List Aff → List Aff) (inits : Nat → Option Status)
+theorem C08_other_rows_irrelevant (dflt : Aff) (inits : Nat → Option Status)
     (rows rows' : List PRow) (s : Nat) (hs : ∃ r ∈ rows, r.sec = s)
     (h : rowsOf s rows = rowsOf s rows') :
-    resultFor s (runPipeline dflt order inits rows) = resultFor s (runPipeline dflt order inits rows') := by
+    resultFor s (runPipeline dflt inits rows) = resultFor s (runPipeline dflt inits rows') := by
   have hs' : ∃ r ∈ rows', r.sec = s := by
     obtain ⟨r, hr, hrs⟩ := hs
     have : r ∈ rowsOf s rows := by simp [rowsOf, hr, hrs]
     rw [h] at this
     exact ⟨r, (List.mem_filter.mp this).1, hrs⟩
-  rw [C08_table_local dflt order inits rows s hs, C08_table_local dflt order inits rows' s hs', h]
+  rw [C08_table_local dflt inits rows s hs, C08_table_local dflt inits rows' s hs', h]
 
 /-- **C08 (an error stays local).**  Whatever failure (over-sale, split validation, …) the rows
     of other securities cause, security `s` still gets exactly the result of its own rows: in
     particular a complete, error-free ledger if its own rows are fine. -/
-theorem C08_error_local (dflt : Aff) (order : Nat → List Aff → List Aff) (inits : Nat → Option Status)
+theorem C08_error_local (dflt : Aff) (inits : Nat → Option Status)
     (rows : List PRow) (s : Nat) (hs : ∃ r ∈ rows, r.sec = s)
-    (hok : (secResult dflt (order s) (inits s) (rowsOf s rows)).2 = none) :
-    ∃ ds, resultFor s (runPipeline dflt order inits rows) = some (ds, none) := by
-  rw [C08_table_local dflt order inits rows s hs]
-  exact ⟨(secResult dflt (order s) (inits s) (rowsOf s rows)).1, by rw [← hok]⟩
+    (hok : (secResult dflt (inits s) (rowsOf s rows)).2 = none) :
+    ∃ ds, resultFor s (runPipeline dflt inits rows) = some (ds, none) := by
+  rw [C08_table_local dflt inits rows s hs]
+  exact ⟨(secResult dflt (inits s) (rowsOf s rows)).1, by rw [← hok]⟩
 
 end Acb
